@@ -64,6 +64,15 @@ check("C06", level="model_checking", engine="nx",
       note=NX_NOTE + " Jobserver token accounting is not covered yet by this check (planned: engine B with a real FIFO).",
       design_ref="5/C06")
 
+check("C03", level="model_checking", engine="nx",
+      technique="explicit-state BFS over change sets of size <= 2 from converged worlds x exhaustive schedule DFS; make-semantics run-set oracle",
+      text="From every successful content-correct full build reached in the exploration, every change set of size 0, 1 and 2 "
+           "from the alphabet is applied and every ninja invocation is run on every schedule; the started set must equal the "
+           "reference set computed on the true graph (directly affected + non-order-only dependents of rewritten outputs; "
+           "restat rewrites only on content change; generator ignores command-line changes).",
+      note=NX_NOTE + " The reference set is defined relative to a converged base build; histories after partial or failed "
+           "builds are covered by C01/C02, not by this oracle.", design_ref="5/C03")
+
 ALL = ["C%02d" % i for i in range(1, 21)]
 
 
